@@ -18,6 +18,7 @@ def UT():
     # 'ab' is a sibling whose name starts with the source directory's name: it must never be touched by a transfer of 'a'
     return Universe([Node('a', 'R', 'a'), Node('a_b', 'a', 'b'), Node('a_b_c', 'a_b', 'c'), Node('f', 'R', 'f', kinds=('f',)),
                      Node('ab', 'R', 'ab', kinds=('d',)), Node('ab_c', 'ab', 'c', kinds=('f',)),
+                     Node('ab_a', 'ab', 'a', True),      # a destination *inside* the prefix sibling (never exists initially)
                      Node('x', 'R', 'x'), Node('x_b', 'x', 'b'), Node('x_b_c', 'x_b', 'c')], 'UT')
 
 
@@ -237,6 +238,8 @@ def transfer_cases(pairs, props_, tier, seed, copy_bufs=(2,), universe='UT'):
                 transfers.append((op, src, dst))
     for op in ('copy_dir', 'move_dir'):
         transfers += [(op, 'a', 'x'), (op, 'a_b', 'x_b'), (op, 'f', 'x'), (op, 'a_b_c', 'x_b_c')]
+        if universe == 'UT':
+            transfers.append((op, 'a', 'ab_a'))
     # between two instances the destination may carry the *same path text* as the source (or lie textually below it)
     same_text = [('copy_dir', 'a', 'a'), ('move_dir', 'a', 'a'), ('copy_file', 'f', 'f'), ('move_file', 'a_b', 'a_b'), ('copy_dir', 'a_b', 'a_b')]
     cases = []
